@@ -11,12 +11,12 @@ import (
 
 // C09-H8 (canonical chain, paging under a scan limit): "the same list for every chunk size and scan
 // limit". The real Blockchain (state backend Store, running filter, EventFilter.Events with real bloom
-// hashing) holds blocks 1..4 above a stored genesis header, each with one event from emitter A or B (an
+// hashing) holds blocks 1..3 (thorough: 1..4) above a stored genesis header, each with one event from emitter A or B (an
 // arbitrary pattern). A query for A over [1, to] is paged to completion with a scan limit of 1..4
 // candidate blocks per call and a chunk size of 1, 2 or 100 events, following the continuation tokens;
 // the concatenated pages must be exactly the A events of blocks 1..to, in chain order, each once.
 func VxC09CanonicalPagingWithScanLimit() {
-	vx.Bound("blocks 1..4 on a stored genesis, one event each from emitter A or B (every pattern); query for A over [1, to], to in 2..4; scan limit 1..4 candidate blocks per call; chunk size 1, 2 or 100; at most 10 pages")
+	vx.Bound("blocks 1..3 (thorough: 1..4) on a stored genesis, one event each from emitter A or B (every pattern); query for A over [1, to], to from 2 to the head; scan limit 1..head candidate blocks per call; chunk size 1 or 100 (thorough: also 2); at most 10 pages")
 	mem := memory.New()
 	g := felt.NewFromUint64[felt.Felt](0x6000)
 	vx.Assert(core.WriteBlockHeader(mem, &core.Header{Number: 0, Hash: g, ProtocolVersion: "0.13.2", EventsBloom: core.EventsBloom(nil)}) == nil &&
@@ -24,8 +24,12 @@ func VxC09CanonicalPagingWithScanLimit() {
 	f := &vxFork{bc: vxBC(mem, 1), hashes: []*felt.Felt{g}, base: 0}
 	a := felt.NewFromUint64[felt.Felt](0xA)
 	b := felt.NewFromUint64[felt.Felt](0xB)
+	nb := 3
+	if vx.Thorough() {
+		nb = 4
+	}
 	var fromA [5]bool
-	for n := 1; n <= 4; n++ {
+	for n := 1; n <= nb; n++ {
 		if vx.Bool("fromA") {
 			fromA[n] = true
 			f.store(a, "h")
@@ -33,9 +37,13 @@ func VxC09CanonicalPagingWithScanLimit() {
 			f.store(b, "h")
 		}
 	}
-	to := uint64(2 + vx.Choice("to", 3))
-	limit := uint(1 + vx.Choice("limit", 4))
-	chunk := []uint64{1, 2, 100}[vx.Choice("chunk", 3)]
+	to := uint64(2 + vx.Choice("to", nb-1))
+	limit := uint(1 + vx.Choice("limit", nb))
+	chunks := []uint64{1, 100}
+	if vx.Thorough() {
+		chunks = []uint64{1, 2, 100}
+	}
+	chunk := chunks[vx.Choice("chunk", len(chunks))]
 	var want []uint64
 	for n := uint64(1); n <= to; n++ {
 		if fromA[n] {
